@@ -31,6 +31,7 @@ ASSUMPTIONS = ["rate constant over the interval (the property's premise)", "rela
 REQUIRED = ["C06:split-invariance", "C06:same-instant-zero", "C06:earlier-time-rejected", "C06:query-changes-nothing",
             "C06:twin-query-bit-identical", "C06:positive-never-charged", "C06:negative-charged-at-r+m",
             "C06:margin-earns-nothing", "C06:rebalance-reports-interest"]
+REQUIRED_CATS = ["sub-second-spacing", "tz-aware-changing-offsets"]
 REQUIRED_HITS = ["Broker.accrued_interest"]
 TECHNIQUE = "runtime monitoring: closed-form reference model (60-digit decimal) and twin runs over generated accrual schedules"
 LEVEL_TEXT = ("Exploration. The real Broker.accrued_interest / Broker.rebalance are driven through thousands of generated accrual "
@@ -66,6 +67,23 @@ def case(ctx, i, tier):
     total = rng.choice([1, 60, 86400, YEAR, rng.randint(1, 40 * YEAR), rng.randint(1, 10 * 86400)])
     k = min(rng.choice([1, 1, 2, 5, 50, 500]), total)
     cuts = [0] + (sorted(rng.sample(range(1, total), k - 1)) if k > 1 else []) + [total]
+    if rng.random() < 0.3:
+        # sub-second spacing: accrual instants with microsecond parts (elapsed time is NOT a whole
+        # number of seconds) - lengths are exact multiples of 1e-6 s
+        total = rng.choice([1, 3600, 86400, rng.randint(1, 30 * 86400)])
+        k = rng.choice([2, 5, 50, 500])
+        us = sorted(rng.sample(range(1, total * 10 ** 6), min(k - 1, total * 10 ** 6 - 1)))
+        cuts = [0.0] + [u / 1e6 for u in us] + [float(total)]
+        cuts_us = [0] + us + [total * 10 ** 6]
+        ctx.cat("sub-second-spacing")
+    else:
+        cuts_us = [c * 10 ** 6 for c in cuts]
+    aware = rng.random() < 0.2
+    if aware:
+        # timezone-AWARE timestamps; the same instants are expressed in changing UTC offsets
+        from datetime import timezone
+        zones = [timezone.utc, timezone(timedelta(hours=9)), timezone(timedelta(hours=-5)), timezone(timedelta(minutes=330))]
+        ctx.cat("tz-aware-changing-offsets")
     mag = 10 ** rng.uniform(-2, 9)
     interleaved = False
     if mode == "negative-by-leverage":
@@ -91,14 +109,19 @@ def case(ctx, i, tier):
         dep = mag if mode == "plain" else -mag
         b, ex, fees = mk(dep, rate, markup, t0)
         twin, ex2, _ = mk(dep, rate, markup, t0)
+    if aware:
+        t0 = t0.replace(tzinfo=timezone.utc)
     cash0 = b.holdings_quantity[Cash()]
     ctx.cat("mode:" + mode, "cash:" + ("neg" if cash0 < 0 else "pos"), "k:{}".format(k),
             "markup>0" if markup > 0 else "markup=0")
     # the interest clock starts at the first call of either kind (DESIGN 4.2-d)
     b.accrued_interest(t0, True)
     twin.accrued_interest(t0, True)
-    for a_, c_ in zip(cuts, cuts[1:]):
-        t = t0 + timedelta(seconds=c_)
+    for (a_, c_), (au_, cu_) in zip(zip(cuts, cuts[1:]), zip(cuts_us, cuts_us[1:])):
+        t = t0 + timedelta(microseconds=cu_)
+        if aware:
+            t = t.astimezone(rng.choice(zones))
+        a_, c_ = Decimal(au_) / 10 ** 6, Decimal(cu_) / 10 ** 6
         if rng.random() < 0.3:
             interleaved = True
             before = dict(b.holdings_quantity)
@@ -131,12 +154,15 @@ def case(ctx, i, tier):
         ctx.check("C06:same-instant-zero", again == 0, again=float(again))
         bq = dict(b.holdings_quantity)
         try:
-            b.accrued_interest(t - timedelta(seconds=rng.choice([1, 3600])), rng.random() < 0.5)
+            t_early = t - timedelta(seconds=rng.choice([1, 3600]))
+            if aware:
+                t_early = t_early.astimezone(rng.choice(zones))     # an earlier instant, whatever its offset
+            b.accrued_interest(t_early, rng.random() < 0.5)
             ctx.violation("C06:earlier-time-rejected", t=t)
         except ValueError:
             ctx.check("C06:earlier-time-rejected", dict(b.holdings_quantity) == bq)
     got = b.holdings_quantity[Cash()]
-    want = ref(cash0, rate, markup, total)
+    want = ref(cash0, rate, markup, Decimal(cuts_us[-1]) / 10 ** 6)
     rel = abs(Decimal(got) - want) / abs(want) if want != 0 else abs(Decimal(got))
     ctx.check("C06:split-invariance", rel <= Decimal(1e-10), cash0=cash0, rate=rate, markup=markup, total=total, k=k,
               got=got, want=float(want), rel=float(rel))
@@ -149,4 +175,4 @@ def case(ctx, i, tier):
                   abs(Decimal(got) - want) <= Decimal(1e-10) * abs(want), margins=b.holdings_margins)
     ctx.nontrivial = k >= 2 and (cash0 < 0 or markup > 0 or interleaved)
     ctx.sample = {"mode": mode, "cash0": cash0, "rate": rate, "markup": markup, "total_s": total, "k": k,
-                  "cuts": cuts[:12]}
+                  "cuts": [float(x) for x in cuts[:12]], "tz_aware": aware}
